@@ -286,8 +286,10 @@ fn transpose<B: StarkField, const N: usize>(mut segments: Vec<Segment<B, N>>) ->
     let mut result = unsafe { uninit_vector::<[B; N]>(result_len) };
 
     // determine number of batches in which transposition will be preformed; if `concurrent`
-    // feature is not enabled, the number of batches will always be 1
-    let num_batches = get_num_batches(result_len);
+    // feature is not enabled, the number of batches will always be 1; the number of batches
+    // cannot exceed the number of rows (both are powers of two): otherwise every batch would
+    // consist of zero rows and the result would be left un-initialized
+    let num_batches = core::cmp::min(get_num_batches(result_len), num_rows);
     let rows_per_batch = num_rows / num_batches;
 
     // define a closure for transposing a given batch
